@@ -329,11 +329,12 @@ PROPS["C06"] = {
              "for key-exchange messages: bit flip, truncation, tags, version, replay, re-typed; source = the message in flight towards the receiver or an earlier one of the peer. The input must qualify as rejected (no plaintext, no event-worthy effect, nothing to send but an error reply). "
              "Enumeration: handshake delivered up to k=0..5 messages x receiver x 6 kinds x source x truncation points, then the rest of the handshake and traffic. Non-trivial: receiver was encrypted, mid-SMP or mid-key-exchange and the continuation delivered >=2 texts each way."),
     "assumptions": COMMON_ASSUME,
-    "exhaustive_checks": ["C06midsmp", "C06akelossy", "C06akestates", "C06firstuse"],
+    "exhaustive_checks": ["C06midsmp", "C06akelossy", "C06akestates", "C06fresh", "C06firstuse"],
     "tests": [
         {"name": "TestProp_C06_MidSMP", "kind": "plain", "quick": {"shards": 16, "timeout": 900}, "thorough": {"shards": 16, "timeout": 3000}},
         {"name": "TestProp_C06_AKELossy", "kind": "plain", "quick": {"shards": 16, "timeout": 900}, "thorough": {"shards": 16, "timeout": 3000}},
         {"name": "TestProp_C06_FirstUse", "kind": "plain", "quick": {"shards": 8, "timeout": 600}, "thorough": {"shards": 8, "timeout": 3000}},
+        {"name": "TestProp_C06_Fresh", "kind": "plain", "quick": {"shards": 8, "timeout": 600}, "thorough": {"shards": 8, "timeout": 3000}},
         {"name": "TestProp_C06_Twin", "quick": {"shards": 8, "checks": 60, "timeout": 600}, "thorough": {"shards": 16, "checks": 1200, "timeout": 3000}},
         {"name": "TestProp_C06_AKEStates", "kind": "plain", "quick": {"shards": 8, "timeout": 600}, "thorough": {"shards": 16, "timeout": 3000}},
     ],
